@@ -72,6 +72,10 @@ func traceSchedule(c *an.Ctx, s *sched, row schedRow) []schedPath {
 	other := s.status["Done"]
 	ex := &an.Explorer{P: p, NoReturn: noReturn, MaxDepth: 3, MaxVisits: 2,
 		Inline: func(f *ssa.Function) bool {
+			// (the condition evaluator may have moved to another package of the module: a function that runs an os/exec command)
+			if an.Outer(f).Pkg != s.schedule.Pkg && an.InModule(f) && f.Blocks != nil && len(an.CallsIn(f, "(*os/exec.Cmd).Run")) > 0 {
+				return true
+			}
 			return an.Outer(f).Pkg == s.schedule.Pkg && f != s.schedule && f != s.gate && f != s.cancel &&
 				an.Short(f) != fnReadStatus && an.Short(f) != fnUpdateStatus && f != s.body && f.Parent() != s.body
 		}}
